@@ -152,6 +152,9 @@ type reader struct {
 	dw        *database.Interface
 	dwPending map[string]*mrec
 	dwSeen    map[string]bool // keys its cache holds a copy of (it judges later writes by that copy)
+	// dwMarkers: every marker this interface ever queued, per key. Its cache is small (2 entries), so queued writes
+	// are also evicted; an evicted entry is written out by the cache's eviction handler at any later operation.
+	dwMarkers map[string]map[string]bool
 }
 
 func (r *reader) full() bool { return r.local && r.internal }
@@ -245,9 +248,10 @@ func newEnv(t fataler, backend string, shadow bool) *env {
 		}
 		r.db = database.NewInterface(opts)
 		if !r.full() && (backend == beHashmap || backend == beBbolt || backend == beBadger) {
-			r.dw = database.NewInterface(&database.Options{Local: r.local, Internal: r.internal, CacheSize: 256, DelayCachedWrites: p.dbName})
+			r.dw = database.NewInterface(&database.Options{Local: r.local, Internal: r.internal, CacheSize: 2, DelayCachedWrites: p.dbName})
 			r.dwPending = map[string]*mrec{}
 			r.dwSeen = map[string]bool{}
+			r.dwMarkers = map[string]map[string]bool{}
 		}
 		e.readers = append(e.readers, r)
 	}
@@ -493,7 +497,7 @@ func (e *env) resync(k string) {
 // model holds nothing or a record the interface may write; everything else is
 // left to compareModel.
 func (e *env) dwReconcile(r *reader) {
-	for k, pm := range r.dwPending {
+	for k, markers := range r.dwMarkers {
 		m := e.model[k]
 		if m != nil && !m.permits(r.local, r.internal) {
 			continue
@@ -502,7 +506,7 @@ func (e *env) dwReconcile(r *reader) {
 		if err != nil {
 			continue
 		}
-		if sn := snapRecord(rec); sn.marker == pm.Marker {
+		if sn := snapRecord(rec); markers[sn.marker] && (m == nil || m.Marker != sn.marker) {
 			stats.Class("delayed_write_of_unprivileged_interface_reached_storage")
 			e.resync(k)
 		}
@@ -1036,6 +1040,10 @@ func (e *env) execReader(op opSpec, k string, r *reader) {
 		if err == nil {
 			r.dwPending[k] = nm
 			r.dwSeen[k] = true
+			if r.dwMarkers[k] == nil {
+				r.dwMarkers[k] = map[string]bool{}
+			}
+			r.dwMarkers[k][nm.Marker] = true
 			stats.Class("delayed_write_queued_by_unprivileged_interface")
 		}
 		e.dwReconcile(r)
